@@ -222,7 +222,7 @@ def h_check_current(serial: bytes, which: int, storage: str) -> None:
     reached()
 
 
-def h_read_current(use_sp: bool, when: int, also_write: bool, storage: str) -> None:
+def h_read_current(use_sp: bool, when: int, also_write: bool, storage: str, rolled: bool = False) -> None:
     """Connection level: a transaction declares with readCurrent(x) that it depends on x being current;
     another connection commits x at a solver-chosen moment; the commit must then fail
     (ReadConflictError, or ConflictError if x is also written) and store nothing - with and without a
@@ -261,6 +261,14 @@ def h_read_current(use_sp: bool, when: int, also_write: bool, storage: str) -> N
         if w == 2:
             other()
         y.v = 2
+        if rolled:
+            # x is written tentatively, saved by a savepoint, and that is rolled back: x is only read again - the
+            # declaration made before still stands
+            sp1 = tm.savepoint()
+            x.v = 9
+            tm.savepoint()
+            sp1.rollback()
+            y.v = 2
         if also_write:
             x.v = 5
         if use_sp:
@@ -275,7 +283,7 @@ def h_read_current(use_sp: bool, when: int, also_write: bool, storage: str) -> N
         except ConflictError:               # ReadConflictError is a ConflictError
             ok = False
             tm.abort()
-        note('case', 'sp=%s when=%d write=%s' % (use_sp, w, also_write))
+        note('case', 'sp=%s when=%d write=%s rolled=%s' % (use_sp, w, also_write, rolled))
         check(ok == (w == 0), 'commit of a transaction whose declared dependency changed was accepted (or a valid one refused)', w, ok)
         if not ok:
             check(s.lastTransaction() == before, 'failed commit stored a transaction')
